@@ -51,7 +51,7 @@ class C06(Spec):
     prop = "C06"
     coq_targets = ["Props/C06.vo"]
     prop_module = "Props.C06"
-    theorems = []
+    theorems = ['C06_constrained_reject', 'C06_nnbi_reject', 'C06_index_reject', 'C06_octetstring_size_reject', 'C06_bitstring_size_reject', 'C06_int_reject', 'C06_octets_reject', 'C06_bits_reject', 'C06_enum_reject', 'C06_choice_reject', 'C06_alphabet_reject', 'C06_string_size_reject', 'C06_list_size_reject']
     builds = [("default", "dev"), ("default", "release")]
     timeout_per_chunk = 600
     xcheck_n = 60
